@@ -2,32 +2,238 @@ package rlp
 
 import (
 	"bytes"
+	"math/big"
 
 	symx "com.tuntun.rangers/node/src/zz_symx"
 )
 
-// Split on arbitrary bytes: total, stays within the input, and the pieces re-assemble.
+func c08MaxLen() int {
+	if symx.Thorough() {
+		return 12
+	}
+	return 9
+}
+
+// Split / SplitString / SplitList / CountValues on arbitrary bytes: total, stay within input.
 func VerifC08_SplitTotal() {
-	b := symx.BytesRange("b", 0, 5)
+	b := symx.BytesRange("b", 0, c08MaxLen())
 	k, content, rest, err := Split(b)
 	if err == nil {
 		symx.Check(len(content)+len(rest) <= len(b), "split: content+rest within input")
 		symx.Observe("kind", int(k))
 		symx.Observe("content", content)
 		symx.Observe("rest", rest)
+		// consistency with the Stream decoder on the first value
+		s := NewStream(bytes.NewReader(b), uint64(len(b)))
+		k2, size, err2 := s.Kind()
+		if err2 == nil {
+			symx.Check(k2 == k, "split kind == stream kind")
+			if k != Byte {
+				symx.Check(size == uint64(len(content)), "split size == stream size")
+			}
+		}
+	}
+	symx.Reach("end")
+}
+
+func VerifC08_SplitStringListTotal() {
+	b := symx.BytesRange("b", 0, c08MaxLen())
+	c, r, err := SplitString(b)
+	if err == nil {
+		symx.Check(len(c)+len(r) <= len(b), "splitstring within input")
+	}
+	c2, r2, err2 := SplitList(b)
+	if err2 == nil {
+		symx.Check(len(c2)+len(r2) <= len(b), "splitlist within input")
+	}
+	symx.Check(err != nil || err2 != nil || len(b) == 0, "a value is not both string and list")
+	symx.Reach("end")
+}
+
+func VerifC08_CountValuesTotal() {
+	b := symx.BytesRange("b", 0, c08MaxLen()-3)
+	n, err3 := CountValues(b)
+	if err3 == nil {
+		symx.Check(n <= len(b), "count values bounded by input length")
+		symx.Observe("count", n)
 	}
 	symx.Reach("end")
 }
 
 // DecodeBytes into []byte: accepted input re-encodes to itself (canonicity).
 func VerifC08_CanonBytes() {
-	b := symx.BytesRange("b", 0, 5)
+	b := symx.BytesRange("b", 0, c08MaxLen())
+	symx.AllocLimit(2*len(b) + 8)
 	var v []byte
 	if err := DecodeBytes(b, &v); err == nil {
 		out, err2 := EncodeToBytes(v)
 		symx.Check(err2 == nil, "re-encode succeeds")
 		symx.Check(bytes.Equal(out, b), "accepted input re-encodes to itself")
 		symx.Observe("v", v)
+	}
+	symx.Reach("end")
+}
+
+func VerifC08_CanonUint64() {
+	b := symx.BytesRange("b", 0, c08MaxLen())
+	symx.AllocLimit(2*len(b) + 8)
+	var v uint64
+	if err := DecodeBytes(b, &v); err == nil {
+		out, err2 := EncodeToBytes(v)
+		symx.Check(err2 == nil, "re-encode succeeds")
+		symx.Check(bytes.Equal(out, b), "accepted input re-encodes to itself")
+		symx.Observe("v", v)
+	}
+	symx.Reach("end")
+}
+
+func VerifC08_CanonSmallUints() {
+	b := symx.BytesRange("b", 0, 5)
+	var v8 uint8
+	if err := DecodeBytes(b, &v8); err == nil {
+		out, _ := EncodeToBytes(v8)
+		symx.Check(bytes.Equal(out, b), "uint8: accepted input re-encodes to itself")
+	}
+	var v16 uint16
+	if err := DecodeBytes(b, &v16); err == nil {
+		out, _ := EncodeToBytes(v16)
+		symx.Check(bytes.Equal(out, b), "uint16: accepted input re-encodes to itself")
+	}
+	var v32 uint32
+	if err := DecodeBytes(b, &v32); err == nil {
+		out, _ := EncodeToBytes(v32)
+		symx.Check(bytes.Equal(out, b), "uint32: accepted input re-encodes to itself")
+	}
+	var vb bool
+	if err := DecodeBytes(b, &vb); err == nil {
+		out, _ := EncodeToBytes(vb)
+		symx.Check(bytes.Equal(out, b), "bool: accepted input re-encodes to itself")
+	}
+	symx.Reach("end")
+}
+
+func VerifC08_CanonString() {
+	b := symx.BytesRange("b", 0, c08MaxLen())
+	symx.AllocLimit(2*len(b) + 8)
+	var v string
+	if err := DecodeBytes(b, &v); err == nil {
+		out, err2 := EncodeToBytes(v)
+		symx.Check(err2 == nil, "re-encode succeeds")
+		symx.Check(bytes.Equal(out, b), "accepted input re-encodes to itself")
+	}
+	symx.Reach("end")
+}
+
+func VerifC08_CanonArray4() {
+	b := symx.BytesRange("b", 0, 7)
+	var v [4]byte
+	if err := DecodeBytes(b, &v); err == nil {
+		out, err2 := EncodeToBytes(v)
+		symx.Check(err2 == nil, "re-encode succeeds")
+		symx.Check(bytes.Equal(out, b), "accepted input re-encodes to itself")
+	}
+	symx.Reach("end")
+}
+
+func VerifC08_CanonBigInt() {
+	b := symx.BytesRange("b", 0, c08MaxLen())
+	symx.AllocLimit(2*len(b) + 8)
+	var v *big.Int
+	if err := DecodeBytes(b, &v); err == nil {
+		out, err2 := EncodeToBytes(v)
+		symx.Check(err2 == nil, "re-encode succeeds")
+		symx.Check(bytes.Equal(out, b), "accepted input re-encodes to itself")
+		symx.Observe("v", v)
+	}
+	symx.Reach("end")
+}
+
+func VerifC08_CanonUintList() {
+	b := symx.BytesRange("b", 0, c08MaxLen()-2)
+	symx.AllocLimit(2*len(b) + 8)
+	var v []uint64
+	if err := DecodeBytes(b, &v); err == nil {
+		out, err2 := EncodeToBytes(v)
+		symx.Check(err2 == nil, "re-encode succeeds")
+		symx.Check(bytes.Equal(out, b), "accepted input re-encodes to itself")
+		symx.Observe("n", len(v))
+	}
+	symx.Reach("end")
+}
+
+type c08Struct struct {
+	A uint64
+	B []byte
+}
+
+type c08Tail struct {
+	A uint64
+	B []byte
+	C []uint16 `rlp:"tail"`
+}
+
+type c08Nil struct {
+	A uint64
+	P *[]byte `rlp:"nil"`
+}
+
+func VerifC08_CanonStruct() {
+	b := symx.BytesRange("b", 0, c08MaxLen()-2)
+	symx.AllocLimit(2*len(b) + 8)
+	var v c08Struct
+	if err := DecodeBytes(b, &v); err == nil {
+		out, err2 := EncodeToBytes(&v)
+		symx.Check(err2 == nil, "re-encode succeeds")
+		symx.Check(bytes.Equal(out, b), "accepted input re-encodes to itself")
+		symx.Observe("A", v.A)
+		symx.Observe("B", v.B)
+	}
+	symx.Reach("end")
+}
+
+func VerifC08_CanonTail() {
+	b := symx.BytesRange("b", 0, c08MaxLen()-2)
+	symx.AllocLimit(2*len(b) + 8)
+	var v c08Tail
+	if err := DecodeBytes(b, &v); err == nil {
+		out, err2 := EncodeToBytes(&v)
+		symx.Check(err2 == nil, "re-encode succeeds")
+		symx.Check(bytes.Equal(out, b), "accepted input re-encodes to itself")
+	}
+	symx.Reach("end")
+}
+
+func VerifC08_CanonNilPtr() {
+	b := symx.BytesRange("b", 0, c08MaxLen()-3)
+	var v c08Nil
+	if err := DecodeBytes(b, &v); err == nil {
+		out, err2 := EncodeToBytes(&v)
+		symx.Check(err2 == nil, "re-encode succeeds")
+		symx.Check(bytes.Equal(out, b), "accepted input re-encodes to itself")
+	}
+	symx.Reach("end")
+}
+
+func VerifC08_CanonRaw() {
+	b := symx.BytesRange("b", 0, c08MaxLen())
+	symx.AllocLimit(2*len(b) + 8)
+	var v RawValue
+	if err := DecodeBytes(b, &v); err == nil {
+		out, err2 := EncodeToBytes(v)
+		symx.Check(err2 == nil, "re-encode succeeds")
+		symx.Check(bytes.Equal(out, b), "accepted input re-encodes to itself")
+	}
+	symx.Reach("end")
+}
+
+func VerifC08_CanonGeneric() {
+	b := symx.BytesRange("b", 0, c08MaxLen()-3)
+	symx.AllocLimit(2*len(b) + 8)
+	var v interface{}
+	if err := DecodeBytes(b, &v); err == nil {
+		out, err2 := EncodeToBytes(v)
+		symx.Check(err2 == nil, "re-encode succeeds")
+		symx.Check(bytes.Equal(out, b), "accepted input re-encodes to itself")
 	}
 	symx.Reach("end")
 }
